@@ -66,8 +66,9 @@ def qsFirstLast (ps : List (Bytes × Bytes)) (k : Bytes) : Option Bytes :=
 def locPath (loc : Bytes) : String :=
   let base := loc.takeWhile (· != 35)
   (if !base.contains 63 then "/no-query"
-   else if base.getLast? == some 63 then (if (queryOf loc).isEmpty then "/empty-query" else "/trailing-qmark")
-   else if base.getLast? == some 38 then "/trailing-amp" else "/query") ++ (if loc.contains 35 then "+fragment" else "")
+   else if (queryOf loc).isEmpty then "/empty-query"
+   else if (queryOf loc).getLast? == some 38 then "/trailing-amp"
+   else if (queryOf loc).getLast? == some 63 then "/trailing-qmark" else "/query") ++ (if loc.contains 35 then "+fragment" else "")
 
 /-- The form controls as the harness's own HTML parser saw them. -/
 def implFieldsOk (typ rs : Bytes) (f : Option (List (Bytes × Bytes))) : Bool :=
@@ -234,7 +235,6 @@ def handle (line : Json) : Json :=
       let path := "redirect/" ++ (if typ == sSAMLart then "art" else "saml") ++ (if rs.isEmpty then "" else "+relay") ++
         locPath loc ++ (if clash then "+clash" else "")
       res model path specM specImpl
-        (if locOk loc then "" else "the destination's query ends in '?'")
   | "artifact_url" =>
     let art := text c "art"; let loc := text c "loc"; let rs := text c "rs"
     match some (artifactUrl art loc rs) with
@@ -248,7 +248,6 @@ def handle (line : Json) : Json :=
         | some u => if u == url then specM else specArtifactUrl art loc rs u
       let path := "arturl" ++ (if rs.isEmpty then "" else "+relay") ++ locPath loc
       res model path specM specImpl
-        (if locOk loc then "" else "the destination's query ends in '?'")
   | "soap" =>
     let thingy := points (strD c "thingy")
     let wrapped := soapWrapStr thingy
